@@ -48,13 +48,23 @@ def _scale(rules, Ns, bound=Fr(1, 2)):
     return out
 
 
-def gen_grammar(rng, template=None, max_nt=5, max_t=3, max_rules=11, max_body=3, wmax=8):
+def gen_grammar(rng, template=None, max_nt=5, max_t=3, max_rules=11, max_body=3, wmax=8, vocab=None):
     if template is None:
         template = rng.choice(TEMPLATES)
     nN = rng.randint(2, max_nt)
     nT = rng.randint(1, max_t)
     Ns = [f"N{i}" for i in range(nN)]
     Ts = [chr(97 + i) for i in range(nT)]
+    if vocab is None:
+        r = rng.random()
+        vocab = "chars" if r < 0.72 else ("ints" if r < 0.86 else "multichar")
+    if vocab == "ints":
+        # integer terminals as in byte-level grammars, including the falsy symbol 0
+        Ts = [0, 1, 2][:nT] if rng.random() < 0.7 else [0, 10, 1][:nT]
+    elif vocab == "multichar":
+        # tokens whose concatenations collide: ("a","b") vs ("ab",)
+        nT = max(nT, 2)
+        Ts = rng.sample(["a", "b", "ab"], min(nT, 3)) if nT >= 3 else rng.choice([["a", "ab"], ["ab", "b"], ["a", "b"]])
     S = Ns[0]
     rules = []
 
